@@ -216,3 +216,28 @@ func ClockSparse2(init uint64) *Prog {
 		modgen.Map("m", init, modgen.Clock(), modgen.StoreIn("sfeed", false), modgen.StoreIn("sclock", false), modgen.MapIn("pm")),
 	)
 }
+
+// Fork: stores whose operations depend on the block *id* (so competing blocks at one height differ): keys created,
+// updated with a size change, deleted by prefix; an additive store; a map reading both. Initial block g1 = genesis+1.
+func Fork(g1 uint64) *Prog {
+	return mk(fmt.Sprintf("fork-%d", g1), map[string]*Body{
+		"sf": {Ops: []OpT{
+			{T: "w", Key: Cat(Lit("k"), Mod(2)), Val: ID(), Ord: 1},
+			{If: IDSuffix("b"), T: "w", Key: Cat(Lit("fork"), Num()), Val: Cat(ID(), ID(), ID()), Ord: 2},
+			{If: IDSuffix("a"), T: "w", Key: Lit("len"), Val: Lit("x"), Ord: 2},
+			{If: IDSuffix("b"), T: "w", Key: Lit("len"), Val: Cat(Lit("longer-"), ID()), Ord: 2},
+			{If: IDSuffix("c"), T: "d", Key: Lit("fork"), Ord: 3},
+			{If: IDSuffix("c"), T: "d", Key: Lit("k1"), Ord: 0},
+		}},
+		"sadd": {Ops: []OpT{
+			{T: "w", Key: Lit("cnt"), Val: Lit("1"), Ord: 0},
+			{If: IDSuffix("b"), T: "w", Key: Lit("b"), Val: Num(), Ord: 1},
+			{If: IDSuffix("c"), T: "d", Key: Lit("b"), Ord: 2},
+		}},
+		"m": {Emit: Cat(ID(), Lit(" k0="), Get(0, "last", Lit("k0"), 0), Lit(" len="), Get(0, "last", Lit("len"), 0), Lit(" cnt="), Get(1, "last", Lit("cnt"), 0), Lit(" b="), Get(1, "last", Lit("b"), 0), Lit(" d="), Deltas("sf"))},
+	}, "m",
+		modgen.Store("sf", g1, pSet, "string", modgen.Src()),
+		modgen.Store("sadd", g1, pAdd, "int64", modgen.Src()),
+		modgen.Map("m", g1, modgen.Src(), modgen.StoreIn("sf", false), modgen.StoreIn("sadd", false), modgen.StoreIn("sf", true)),
+	)
+}
